@@ -23,6 +23,12 @@ PROOFS = ["theories/Props/C09.vo"]
 STATEMENT_FILES = ["theories/Props/C09.v", "theories/Jsonx/ConstsGen.v"]
 
 
+def same_values(want, got):
+    w = want.split("#") if want else []
+    g = got.split("#") if got else []
+    return len(w) == len(g) and all(J.same_value(a, b) for a, b in zip(w, g))
+
+
 def impl_oracle(c):
     o = c["obs"]
     kind = J.crash_kind(o)
@@ -37,6 +43,37 @@ def impl_oracle(c):
                 o.get("text"), o.get("got"), c["want"])
         if c.get("reject"):
             return "trailing-accepted", "Unmarshal accepted a document with content after the value"
+    if c.get("plain") and op in ("tojson", "unmarshal"):
+        rs = c.get("reasons") or []
+        accepted = bool(o.get("ok"))
+        if not accepted and not rs:
+            return "plain-json-rejected", ("valid RFC 8259 text rejected for no documented reason (errors %s)"
+                                           % (o.get("errs") or o.get("first")))
+        if accepted and rs:
+            return "plain-json-accepted-despite", "accepted although %s" % ",".join(rs)
+    if op == "stream":
+        if o.get("note"):
+            return "stream", o["note"]
+        if o.get("fin") == 2:
+            return "invalid-json", "parsed without error, but json.Unmarshal rejected the emitted text"
+        if c.get("multi"):
+            if not o.get("ok"):
+                return "stream-rejected", "a sequence of valid values was rejected: %s" % o.get("errs")
+            if "E(" not in c.get("want", "") and not same_values(c.get("want", ""), o.get("got", "")):
+                return "meaning", "the values decoded one after the other denote %s, the input denotes %s" % (
+                    o.get("got"), c.get("want"))
+    if op == "tseries":
+        if o.get("note"):
+            return "typed", o["note"]
+        items = c.get("wantitems")
+        if items is not None:
+            want_errs = ["jsonx.unknownType" if it["kind"] == "unknowntype" else "jsonx.marshalJSON"
+                         for it in items if it["kind"] != "ok"]
+            if (o.get("errs") or []) != want_errs:
+                return "typed-errors", "entries %s: expected errors %s, got %s" % (
+                    [it["name"] + ":" + it["kind"] for it in items], want_errs, o.get("errs"))
+            if not want_errs and len(o.get("items") or []) != len(items):
+                return "typed", "expected %d entries, got %d" % (len(items), len(o.get("items") or []))
     if op == "unmarshal" and o.get("res") == "json":
         return "invalid-json", "parsed without error, but json.Unmarshal rejected the emitted text: %s" % o.get("note")
     return None
@@ -99,7 +136,11 @@ def run(ck):
         rule="fixed number spellings first; seeded (splitmix64) JSON values rendered with random JSONx surface choices "
              "(key quoting, comments, white space and line ends, raw / escaped strings, sign, hex / octal / decimal, "
              "exponent forms, trailing commas, dotted identifier lists); number and string streams; random RFC 8259 "
-             "texts whose meaning is what encoding/json reads; documents with trailing content; standard-library "
+             "texts whose meaning is what encoding/json reads; sequences of values read one after the other from one "
+             "Decoder; typed series rendered from Go struct values (tags, omitempty, nested pointer, map, untagged "
+             "fields matched case-insensitively, interface{}) with seeded defects (unknown field, type mismatch, integer "
+             "overflow, unknown type) decoded by DecodeSeries into the real struct types and compared with "
+             "reflect.DeepEqual; documents with trailing content; standard-library "
              "correspondence inputs. A case is trivial if its input is empty or it was rejected; distinct = distinct "
              "(operation, input bytes).",
         assumptions=["strconv.ParseFloat / json.Marshal(float64) satisfy the shortest-round-trip law",
